@@ -18,6 +18,15 @@ def generate(rng, tier="quick"):
         cfg["nodes"][0]["host"], cfg["nodes"][1]["host"] = 0, 1
     steps = gen.interleave(rng, [gen.gen_lifecycle(rng, 0, maxc, pc, reboot_host=0 if procs else None),
                                  gen.gen_lifecycle(rng, 1, maxc, pc, reboot_host=1 if procs else None)])
+    if procs and rng.random() < 0.6:
+        # an unrelated session of the OTHER protocol flavour lives in node 0's process and uses the
+        # same parameter-set object before (or after) it
+        fam = cfg["nodes"][0]["cls"]
+        nb = {"cls": "S" if fam in "AB" else rng.choice(["A", "B"]), "pw": gen.gen_bytes(rng).hex(), "pset": 0,
+              "host": 0, "entropy": {"mode": "uniform", "seed": rng.randrange(1 << 40)}}
+        cfg["nodes"].append(nb)
+        life = [{"op": "boot", "n": 2}, {"op": "start", "n": 2}, {"op": "persist", "n": 2}]
+        steps = life + steps if rng.random() < 0.7 else steps + life
     # honest network: delay / reorder / duplicate only
     order = [(1, 0), (0, 1)]
     rng.shuffle(order)
